@@ -561,6 +561,10 @@ func (this *LZXCodec) Forward(src, dst []byte) (uint, uint, error) {
 	}
 
 	if litLen >= 7 {
+		if litLen >= 1<<24 {
+			return 0, 0, errors.New("LZCodec forward transform skip: too many literals")
+		}
+
 		this.tkBuf[tkIdx] = byte(7 << 5)
 		tkIdx++
 		dstIdx += emitLengthLZ(dst[dstIdx:], litLen-7)
